@@ -2,7 +2,7 @@
    implementation was observed to do, compared with the model by vm_compute. *)
 From Coq Require Import String List NArith ZArith Bool.
 From J5V.lib Require Import Outcome Corr Json JsonPrint Base64 Civil Decimal.
-From J5V.model Require Import CodecTypes CodecEnc CodecEncDec CodecDecScalar CodecDec.
+From J5V.model Require Import CodecTypes CodecEnc CodecEncDec CodecDecScalar CodecDec CodecEnvDerive CodecFloatInt.
 From J5V.proofs Require Import CodecEncDecProofs CodecEncRep.
 Import ListNotations.
 Local Open Scope N_scope.
@@ -89,7 +89,16 @@ Inductive enc_case :=
          (aback : option (list (bytes * bytes * option bytes)))
          (* rep: the harness's statement that (environment, message) satisfy the preconditions of
             C01_full_statement_decided (env_static_b and rep_root_b); the deciders must agree *)
-         (rep : bool).
+         (rep : bool)
+(* the reflector's derivation steps: re is the raw environment of a root type (ObjectSchema.Properties
+   with flatten marks, proto enum value names), e the client environment the real reflector built
+   (ClientProperties, EnumSchema.Options): CodecEnvDerive.derive_schema recomputes every schema of e *)
+| CEnv (re : rawenv) (e : env)
+(* strconv on the sub-domain where the float laws are proved of a model (CodecFloatInt): FormatFloat(v,'g',-1,w)
+   of an integer-valued float of magnitude < small_bound, and ParseFloat of that text; CFloatOut: a float
+   outside the sub-domain, on which the model answers None *)
+| CFloatInt (is32 : bool) (bits : N) (txt : bytes) (back : option N)
+| CFloatOut (is32 : bool) (bits : N).
 
 Fixpoint table_get {A} (tbl : list (bytes * A)) (k : bytes) : option A :=
   match tbl with
@@ -178,6 +187,13 @@ Definition enc_check (c : enc_case) : bool :=
   | CDateParse s r => option_eqb zzz_eqb (date_from_string s) r
   | CValid s valid => Bool.eqb (is_some (strict_parse s)) valid
   | CDecimal s r => opt_bytes_eqb (dec_normalise s) r
+  | CEnv re e => env_derived_b re e
+  | CFloatInt is32 bits txt back =>
+      match fmt_small is32 bits with
+      | Some t => bytes_eqb t txt && option_eqb N.eqb (parse_small is32 txt) back && option_eqb N.eqb back (Some bits)
+      | None => false
+      end
+  | CFloatOut is32 bits => match fmt_small is32 bits with None => true | Some _ => false end
   | CRound e static root m floats inner pf pt strict out back xcheck aback rep =>
       (* the harness states whether the environment is inside the theorem's static hypotheses
          (it knows one shape that is not); the decider must agree *)
